@@ -38,7 +38,8 @@ MUST_HIT = ["timeout_between_messages", "observer_busy_at_stop_marker", "zero_de
             "saver_name_without_wav_extension", "relative_file_names", "hundreds_of_consecutive_timeouts",
             "validator_object_passed_to_worker", "clock_at_end_of_second", "overlapping_reader",
             "reader_with_max_read_and_saver", "tokenizer_with_logger_zero_detections", "stale_temporary_wav_present",
-            "more_than_4096_detections"]
+            "more_than_4096_detections", "recording_reader", "saver_default_cache", "audio_block_equal_to_a_library_constant",
+            "observer_busy_for_more_than_a_second"]
 ASSUMPTIONS = [
     "interleavings are explored at the granularity of queue operations, source reads, observer callbacks, thread start/exit and joins (DESIGN 3.4)",
     "liveness judged under the harness's fair continuation after the generated prefix",
@@ -147,7 +148,7 @@ def judge_files(run, case, exp, blocks):
             raise Violation(
                 f"saved stream holds {len(frames) // bps} samples, the source handed out {len(want) // bps}"
                 f"{' (content differs)' if len(frames) == len(want) else ''}", case)
-        seen = [b for b in run.proxy.returned if b is not None]
+        seen = [b for b in run.proxy.returned if b is not None] if run.proxy is not None else blocks
         if seen != blocks:
             raise Violation(f"tokenizer received {len(seen)} blocks, wrapped reader produced {len(blocks)} (or content differs)", case)
     if run.joiner is not None:
@@ -218,7 +219,7 @@ def trace_classes(run, exp):
 def check_free_only(case, rec):
     """Streams with thousands of detections: free-running threads only (finite source, results judged
     after the threads have ended)."""
-    run = pipeline.run_pipeline(case, scheduled=False)
+    run = pipeline.run_pipeline(case, scheduled=False, jitter=case.get("jitter"))
     try:
         if run.alive:
             raise Violation(f"threads still alive after the stream ended: {run.alive}", case)
@@ -226,6 +227,8 @@ def check_free_only(case, rec):
         judge_observers(run, case, exp)
         judge_files(run, case, exp, run.src.handed)
         classes = {"free_running_validation"}
+        if case.get("jitter") and max(case["jitter"]) > 1.0:
+            classes.add("observer_busy_for_more_than_a_second")
         if len(exp) > 4096:
             classes.add("more_than_4096_detections")
         rec.note(case, True, classes, out={"detections": len(exp)})
@@ -263,6 +266,12 @@ def check_case(case, rec):
             classes.add("overlapping_reader")
         if mr_ is not None:
             classes.add("reader_with_max_read" + ("_and_saver" if case.get("saver") else ""))
+        if case.get("record"):
+            classes.add("recording_reader")
+        if case.get("saver") and case["saver"]["cache"] is None:
+            classes.add("saver_default_cache")
+        if case["audio"].get("inject") and pipeline.inject_constant(b"\0" * len(run.data), case["audio"]) != b"\0" * len(run.data):
+            classes.add("audio_block_equal_to_a_library_constant")
         if case.get("logger"):
             classes.add("tokenizer_with_logger" + ("_zero_detections" if not exp else ""))
         if case.get("stale_tmp") and ((case.get("saver") or {}).get("ext", ".wav") == ".raw" or
@@ -364,6 +373,17 @@ def explicit_cases():
          "choices": [-1] * 20 + [0, 1, 2, 3] * 20},
         {"audio": dict(a, B=1, sr=10, ch=1, sw=1, al=60, pat="10" * 4200, tail=[0, 0]), "win": [1, 1, 0, False, False], "saver": None,
          "observers": ["rec", "print"], "choices": [], "free_only": True, "logger": True},
+        {"audio": a, "win": [2, 4, 1, False, False], "saver": None, "observers": ["rec", "print"], "record": True, "choices": [0, 1, 2, 3] * 20},
+        {"audio": a, "win": [2, 4, 1, False, False], "saver": {"cache": 0.02}, "observers": ["rec"], "record": True, "mr": [25, 0],
+         "choices": [-1] * 10 + [0, 1, 2, 3] * 20},
+        # an observer that needs more than a second for one detection (a slow command, a slow disk)
+        {"audio": a, "win": [2, 4, 1, False, False], "saver": None, "observers": ["rec", "rec"], "choices": [], "free_only": True,
+         "jitter": [1.25, 0.0, 0.0, 0.0, 0.0, 0.0, 0.0, 0.0]},
+        # audio blocks of 15 bytes, one of which reads "STOP_PROCESSING"
+        {"audio": dict(a, sr=1500, sw=1, ch=1, B=15, al=90, pat="1111111100001111111100001111", tail=[0, 0], inject=[10, 0]),
+         "win": [2, 20, 2, False, False], "saver": {"cache": 0}, "observers": ["rec"], "choices": [0, 1, 2, 3] * 30},
+        {"audio": dict(a, sr=16000, sw=2, ch=1, B=256, al=8000, pat=("1111100" * 12)[:70], tail=[0, 0]), "win": [1, 3, 0, False, False],
+         "saver": {"cache": None}, "observers": ["rec"], "choices": [0, 1, 2] * 20},
     ]
 
 
@@ -403,6 +423,31 @@ def strategy(draw, maxwin, free=False):
     c["tok_spell"] = draw(st.sampled_from([{}, {}, {"eth": "eth"}, {"uc": "uc"}, {"eth": "eth", "uc": "uc"},
                                            {"validator": "validator"}, {"validator": "val"}]))
     c["logger"] = draw(st.booleans())
+    c["record"] = draw(rarely(5))
+    c["direct"] = draw(st.booleans())
+    if draw(rarely(12)):
+        # one block of the audio equals a string constant of the library (e.g. an internal marker)
+        consts = pipeline.library_constants()
+        const = draw(st.sampled_from(consts))
+        facts = [(cc, len(const) // cc) for cc in (1, 3, 5, 2, 4) if len(const) % cc == 0]
+        cc, bb = draw(st.sampled_from(facts))
+        c["audio"].update(sw=1, ch=cc, B=bb, uc=None, al=min(c["audio"]["al"], 100), tail=[0, 0])
+        c["audio"].pop("thr0", None)
+        fit = [x for x in consts if len(x) == len(const)]
+        c["audio"]["inject"] = [draw(st.integers(0, max(len(c["audio"]["pat"]) - 1, 0))), fit.index(const)]
+        if not c["saver"]:
+            c["saver"] = {"cache": draw(st.sampled_from([0, 1000.0]))}
+    if c["saver"] and draw(rarely(30)):
+        # the default cache (0.5 s) at 16 kHz / 16 bit with blocks of 256..2048 samples: flushes fall on multiples of 8192 bytes
+        c["audio"].update(sr=16000, sw=2, ch=1, B=draw(st.sampled_from([256, 512, 1024, 2048])), tail=[0, 0], uc=None,
+                          pat="".join(draw(st.lists(st.sampled_from(["1", "0", "11", "00"]), min_size=12, max_size=24))))
+        c["audio"]["pat"] = (c["audio"]["pat"] * 8)[: max(17000 // c["audio"]["B"], 12)]
+        c["audio"]["al"] = min(max(c["audio"]["al"], 100), 16000)
+        c["audio"].pop("thr0", None)
+        c["saver"]["cache"] = None
+        c["win"] = [1, draw(st.integers(1, 3)), 0, c["win"][3], c["win"][4]]
+        c["choices"] = c["choices"][:80]
+        c["twin"] = False
     c["stale_tmp"] = draw(st.booleans())
     if not c["saver"] and B % 2 == 0:
         c["overlap"] = draw(rarely(4))
